@@ -14,6 +14,25 @@ TABLE_FNS = [
 ]
 
 
+def _pixel_type_subject(prog, f, x):
+    """is x a value of type PixelType (a local / parameter of that type, a field of that type,
+    the result of a `pixel_type()` getter or of a crate-local function returning it)?"""
+    from .dispatch_rules import _expr_ty
+    while isinstance(x, tuple) and x and x[0] in ("ref", "deref"):
+        x = x[1]
+    if not isinstance(x, tuple) or not x:
+        return False
+    if x[0] in ("call", "callat"):
+        nm = x[1] if x[0] == "call" else x[2]
+        if nm in ("pixel_type", "try_pixel_type"):
+            return nm == "pixel_type"
+    t = _expr_ty(prog, f, x)
+    if t is None:
+        return False
+    import re as _re
+    return _re.sub(r"^(&(?:'\\w+ )?(?:mut )?)+", "", t.strip()).endswith("PixelType")
+
+
 def t_types(rep, prog, rule):
     rep.rule(rule, "in every PixelType-indexed table (resize, the four MulDiv entry points, "
              "change_type_of_pixel_components, PixelComponentMapper::map{,_inplace}) a call made "
@@ -40,6 +59,10 @@ def t_types(rep, prog, rule):
                 s = fmt(cond)
                 if "pixel_type" not in s:
                     continue
+                if not _pixel_type_subject(prog, f, cond[1]):
+                    continue        # e.g. the Ok / Err discriminant of a validator's result
+                if "dst" in s and "src" in s:
+                    continue        # which of the two images the value belongs to is not told
                 role = "dst" if "dst" in s else ("src" if "src" in s else "single")
                 roles[role] = variants.get(val)
             if not roles:
